@@ -28,6 +28,7 @@ CONSTANTS
   TrampFlushed = TRUE
   Regen = FALSE
   SavedFrom = "install"
+  VerifierStep = "first"
   RestoreMayFail = FALSE
   LockByHand = FALSE
   ForeignReuse = FALSE
